@@ -1,6 +1,7 @@
 package verif
 
 import (
+	"testing/synctest"
 	"time"
 )
 
@@ -31,6 +32,7 @@ func (r *Run) Drive(p *NetPolicy, goal func() bool, extra func() []Ev, idle, lim
 	deadline := time.Now().Add(limit)
 	start := r.Steps
 	for {
+		synctest.Wait() // let the effects of the last decision settle before judging
 		if r.Failed() {
 			return Aborted
 		}
